@@ -100,7 +100,7 @@ def _explore(task):
                 # real side (a failure there is a genuine, replayed violation); the run is otherwise
                 # inconclusive, never a pass
                 out['gaps'].append(dict(msg=str(g)[:300], values={k2: C.enc(v) for k2, v in E.diverse_witness().items()}))
-                if len(out['gaps']) >= 4:
+                if len(out['gaps']) >= 10:
                     E.inconclusive.append('model gap: %s' % str(g)[:200])
                     raise symx.Inconclusive('model gap')
                 raise symx.PathAbort()
@@ -384,7 +384,7 @@ def _finish(pid, hname, h, tier, seed, results, real, t0, limits, conformance=''
     for r in results:
         for g in r.get('gaps', []):
             n_gaps += 1
-            if n_gaps > 24:
+            if n_gaps > 60:
                 break
             rr0 = real.map([dict(harness=hname, cfg=r['cfg'], values=g['values'], want_obs=False)])[0]
             if rr0['failed'] and not rr0['error']:
